@@ -11,6 +11,8 @@ FIRRateConverter::FIRRateConverter(int interp, int decim)
 FIRRateConverter::FIRRateConverter(int interp, int decim, const arr_real& h)
   : interp_{interp}
   , decim_{decim} {
+    //filter delay is N/2 samples at the interpolated rate, reported in output samples like the other converters
+    delay_ = h.size() / (2 * decim_);
     const auto th = polyphase(h, interp_, real_t(interp_), true);
     sublen_ = th[0].size();
     d_ = zeros(sublen_ - 1);
@@ -64,8 +66,7 @@ arr_real FIRRateConverter::process(const arr_real& in) {
 }
 
 int FIRRateConverter::delay() const noexcept {
-    //TODO: must be N/2
-    return sublen_ / 2 + 1;
+    return delay_;
 }
 
 int FIRRateConverter::interp_rate() const noexcept {
